@@ -72,10 +72,26 @@ Proof.
   rewrite u128_of_limbs_spec by (unfold is_word; lia). lia.
 Qed.
 
-(** BoxedUint::from_be_hex at a precision of n whole limbs is the fixed-width decoder of n limbs *)
+(** BoxedUint::from_be_hex: exactly 16 * ceil(p/64) hex characters are accepted, the result has ceil(p/64)
+    limbs and the positional value *)
+Lemma boxed_from_be_hex_spec p cs : wfd 256 cs ->
+  let n := Z.to_nat ((p + 63) / 64) in
+  match boxed_from_be_hex p cs with
+  | HexLen => length cs <> (16 * n)%nat
+  | HexInvalid => length cs = (16 * n)%nat /\ hexvals cs = None
+  | HexOk r => length cs = (16 * n)%nat /\
+               exists ds, hexvals cs = Some ds /\ wf r /\ length r = n /\ eval r = evalb 16 (rev ds)
+  end.
+Proof.
+  intros Hw n. unfold boxed_from_be_hex. rewrite limbs_for_precision_eq. apply from_be_hex_spec. assumption.
+Qed.
+
 Lemma boxed_from_be_hex_whole_limbs n cs : boxed_from_be_hex (64 * Z.of_nat n) cs = uint_from_be_hex n cs.
 Proof.
-  unfold boxed_from_be_hex. rewrite Z.mul_comm, Z.div_mul by lia. rewrite Nat2Z.id. reflexivity.
+  unfold boxed_from_be_hex. rewrite limbs_for_precision_eq.
+  assert (Hq : (64 * Z.of_nat n + 63) / 64 = Z.of_nat n).
+  { apply (proj1 (div_mod_unique_pos 64 (Z.of_nat n) 63 (64 * Z.of_nat n + 63) ltac:(lia) ltac:(lia))). }
+  rewrite Hq, Nat2Z.id. reflexivity.
 Qed.
 
 Theorem boxed_le_roundtrip ls : wf ls -> (1 <= length ls)%nat ->
@@ -113,31 +129,92 @@ Proof.
   rewrite skipn_length in Hlen. split; [lia|]. auto.
 Qed.
 
-(* ---- the model reproduces four behaviours of /repo that contradict the property ---- *)
-Open Scope string_scope.
-Definition run_both (op : string) (args : list (list Z)) : option (outcome * outcome) :=
-  match lookup op ops_conv_model, lookup op ops_conv_spec with
-  | Some f, Some g => Some (f false args, g false args)
-  | _, _ => None
-  end.
+(* ---- NonZero / Odd decoders ---- *)
+Lemma is_zero_limbs_eval r : wf r -> is_zero_limbs r = true <-> eval r = 0.
+Proof.
+  unfold is_zero_limbs. induction r as [|x r IH]; intros Hw; cbn [forallb eval]; [tauto|].
+  apply wf_cons in Hw. destruct Hw as [Hx Hw]. specialize (IH Hw).
+  pose proof (eval_nonneg r Hw). unfold is_word in Hx. pose proof B_pos.
+  rewrite andb_true_iff, Z.eqb_eq, IH. split; [intros [-> ->]; lia | intros E; split; nia].
+Qed.
 
-(* NonZero::from_le_byte_array reads its input big-endian *)
-Lemma nonzero_le_byte_array_refuted :
-  run_both "nonzero.from_le_byte_array" [[1; 0; 0; 0; 0; 0; 0; 0]; [1]] = Some (Val [[2 ^ 56]], Val [[1]]).
-Proof. vm_compute. reflexivity. Qed.
-(* Odd::from_le_hex reads its input big-endian: "0200000000000001" is the even value 2 + 2^56 in little
-   endian (documented: panic) but is accepted as the odd big-endian value *)
-Lemma odd_le_hex_refuted :
-  run_both "odd.from_le_hex" [[48; 50; 48; 48; 48; 48; 48; 48; 48; 48; 48; 48; 48; 48; 48; 49]; [1]]
-  = Some (Val [[2 ^ 57 + 1]], PanicV).
-Proof. vm_compute. reflexivity. Qed.
-(* Int::<1>::from_i128(2^64) = 0: silent truncation *)
-Lemma int_from_i128_truncates_refuted :
-  int_from_i128 1 (2 ^ 64) = [0] /\ run_both "int.from_prim" [[0; 1]; [128]; [1]] = Some (Val [[0]], PanicV).
-Proof. vm_compute. split; reflexivity. Qed.
-(* BoxedUint::from_be_hex rounds the precision down: precision 100 yields a 64-bit value, the 128-bit
-   sized input is rejected by the size assertion, and precision 63 yields a value without limbs *)
-Lemma boxed_from_be_hex_precision_refuted :
-  boxed_from_be_hex 100 (repeat 48 16) = HexOk [0] /\ boxed_from_be_hex 100 (repeat 48 32) = HexLen /\
-  boxed_from_be_hex 63 [] = HexOk [].
-Proof. vm_compute. repeat split; reflexivity. Qed.
+(** NonZero::from_le_bytes / from_le_byte_array: little-endian positional decoding, none exactly for zero *)
+Lemma nonzero_from_le_spec n bs : wfd 256 bs ->
+  match nonzero_from_le n bs with
+  | PanicV => length bs <> (8 * n)%nat
+  | NoneV => length bs = (8 * n)%nat /\ evalb 256 bs = 0
+  | Val [r] => length bs = (8 * n)%nat /\ wf r /\ length r = n /\ eval r = evalb 256 bs /\ eval r <> 0
+  | _ => False
+  end.
+Proof.
+  intros Hw. unfold nonzero_from_le, nonzero_new.
+  destruct (uint_from_le_slice n bs) as [r|] eqn:E; [|apply from_le_slice_len; assumption].
+  destruct (from_le_slice_spec n bs r Hw E) as (Hl & Hwr & Hlr & Her).
+  pose proof (is_zero_limbs_eval r Hwr) as Z0.
+  destruct (is_zero_limbs r).
+  - split; [assumption|]. rewrite <- Her. apply Z0. reflexivity.
+  - repeat split; try assumption. intros E0. apply Z0 in E0. discriminate.
+Qed.
+Lemma nonzero_from_be_spec n bs : wfd 256 bs ->
+  match nonzero_from_be n bs with
+  | PanicV => length bs <> (8 * n)%nat
+  | NoneV => length bs = (8 * n)%nat /\ evalb 256 (rev bs) = 0
+  | Val [r] => length bs = (8 * n)%nat /\ wf r /\ length r = n /\ eval r = evalb 256 (rev bs) /\ eval r <> 0
+  | _ => False
+  end.
+Proof.
+  intros Hw. unfold nonzero_from_be, nonzero_new.
+  destruct (uint_from_be_slice n bs) as [r|] eqn:E; [|apply from_be_slice_len; assumption].
+  destruct (from_be_slice_spec n bs r Hw E) as (Hl & Hwr & Hlr & Her).
+  pose proof (is_zero_limbs_eval r Hwr) as Z0.
+  destruct (is_zero_limbs r).
+  - split; [assumption|]. rewrite <- Her. apply Z0. reflexivity.
+  - repeat split; try assumption. intros E0. apply Z0 in E0. discriminate.
+Qed.
+
+Lemma odd_low_limb r : Z.odd (nthz r 0) = Z.odd (eval r).
+Proof.
+  destruct r as [|x r]; [reflexivity|]. unfold nthz. cbn [nth eval].
+  rewrite Z.odd_add, Z.odd_mul. rewrite B_val at 1. change (Z.odd (2 ^ 64)) with false.
+  cbn [andb]. rewrite xorb_false_r. reflexivity.
+Qed.
+
+(** Odd::from_le_hex: strict little-endian hex decoding; accepted exactly when, in addition, the value is odd *)
+Lemma odd_from_le_hex_spec n cs : wfd 256 cs ->
+  match odd_from_le_hex n cs with
+  | Val [r] => length cs = (16 * n)%nat /\
+               exists ds, hexvals cs = Some ds /\ wf r /\ length r = n /\
+                          eval r = evalb 256 (nib_pairs ds) /\ Z.odd (eval r) = true
+  | PanicV => length cs <> (16 * n)%nat \/ hexvals cs = None \/
+              exists ds, hexvals cs = Some ds /\ Z.odd (evalb 256 (nib_pairs ds)) = false
+  | _ => False
+  end.
+Proof.
+  intros Hw. unfold odd_from_le_hex, odd_new. pose proof (from_le_hex_spec n cs Hw) as S.
+  destruct (uint_from_le_hex n cs) as [r| |].
+  - destruct S as (Hl & ds & Hh & Hwr & Hlr & Her). rewrite odd_low_limb.
+    destruct (Z.odd (eval r)) eqn:Eo.
+    + split; [assumption|]. exists ds. auto.
+    + right. right. exists ds. rewrite <- Her. auto.
+  - right. left. tauto.
+  - left. assumption.
+Qed.
+Lemma odd_from_be_hex_spec n cs : wfd 256 cs ->
+  match odd_from_be_hex n cs with
+  | Val [r] => length cs = (16 * n)%nat /\
+               exists ds, hexvals cs = Some ds /\ wf r /\ length r = n /\
+                          eval r = evalb 16 (rev ds) /\ Z.odd (eval r) = true
+  | PanicV => length cs <> (16 * n)%nat \/ hexvals cs = None \/
+              exists ds, hexvals cs = Some ds /\ Z.odd (evalb 16 (rev ds)) = false
+  | _ => False
+  end.
+Proof.
+  intros Hw. unfold odd_from_be_hex, odd_new. pose proof (from_be_hex_spec n cs Hw) as S.
+  destruct (uint_from_be_hex n cs) as [r| |].
+  - destruct S as (Hl & ds & Hh & Hwr & Hlr & Her). rewrite odd_low_limb.
+    destruct (Z.odd (eval r)) eqn:Eo.
+    + split; [assumption|]. exists ds. auto.
+    + right. right. exists ds. rewrite <- Her. auto.
+  - right. left. tauto.
+  - left. assumption.
+Qed.
